@@ -92,6 +92,10 @@ func QueryMessageDesc(message any) *MessageDesc {
 	return outsideMessageDesc
 }
 
+// RefFactory 根据地址与路径构造 ActorRef 的具体实现，由 internal/actor 在初始化时注入；
+// 供携带 ActorRef 字段的内置消息（OnKill、OnKilled）在反序列化时还原引用。
+var RefFactory func(address, path string) (any, error)
+
 // ErrCodecRequired 表示消息未在内部注册表中注册，且未配置用户 Codec，无法编解码。
 var ErrCodecRequired = fmt.Errorf("message is not a registered message type and no codec is configured")
 
